@@ -3,6 +3,7 @@ package eng
 import (
 	"go/token"
 	"go/types"
+	"sync"
 
 	"golang.org/x/tools/go/ssa"
 )
@@ -118,7 +119,9 @@ func SizeSinks(t map[ssa.Value]bool, paramSinks map[*ssa.Function]map[int]bool) 
 			case *ssa.BinOp:
 				if IsOrderedCmp(x.Op) {
 					for _, br := range Referrers(x) {
-						if _, ok := br.(*ssa.If); ok && !seen[r] {
+						// a loop bound: the test is inside a natural loop and one of its edges leaves the loop
+						// (a range check outside any loop sizes nothing)
+						if ifi, ok := br.(*ssa.If); ok && !seen[r] && isLoopExitTest(ifi) {
 							seen[r] = true
 							out = append(out, SizeSink{r, "loop"})
 						}
@@ -240,6 +243,100 @@ func IndexGuarded(fn *ssa.Function, sk IndexSink, taint map[ssa.Value]bool) bool
 			same[v] = true
 		}
 	}
+	// the index arithmetic bounds itself: (x & m) >> k, x % m on unsigned operands, against an array of known length
+	if n, ok := arrayLen(sk.X.Type()); ok {
+		if ub, ok2 := upperBound(sk.Idx, 0); ok2 && ub < n {
+			return true
+		}
+	}
 	edges := InBoundsEdges(fn, sk.X, same)
 	return len(edges) > 0 && !Reachable(fn.Blocks[0], edges)[sk.Instr.Block()]
+}
+
+func arrayLen(t types.Type) (int64, bool) {
+	if pt, ok := t.Underlying().(*types.Pointer); ok {
+		t = pt.Elem()
+	}
+	if at, ok := t.Underlying().(*types.Array); ok {
+		return at.Len(), true
+	}
+	return 0, false
+}
+
+// upperBound: a constant the non-negative value v cannot exceed, from masks, shifts and remainders of unsigned
+// operands (ok is false when v may be negative or nothing bounds it).
+func upperBound(v ssa.Value, depth int) (int64, bool) {
+	if depth > 6 {
+		return 0, false
+	}
+	if k, ok := ConstInt(v); ok {
+		return k, k >= 0
+	}
+	unsigned := func(t types.Type) bool {
+		b, ok := t.Underlying().(*types.Basic)
+		return ok && b.Info()&types.IsUnsigned != 0
+	}
+	switch x := v.(type) {
+	case *ssa.Convert:
+		// widening or same-size conversions of a bounded non-negative value keep the bound
+		if ub, ok := upperBound(x.X, depth+1); ok {
+			return ub, true
+		}
+	case *ssa.ChangeType:
+		return upperBound(x.X, depth+1)
+	case *ssa.BinOp:
+		switch x.Op {
+		case token.AND:
+			for _, o := range []ssa.Value{x.X, x.Y} {
+				if k, ok := ConstInt(o); ok && k >= 0 {
+					return k, true
+				}
+			}
+		case token.SHR:
+			if k, ok := ConstInt(x.Y); ok && k >= 0 && k < 63 {
+				if ub, ok2 := upperBound(x.X, depth+1); ok2 {
+					return ub >> uint(k), true
+				}
+			}
+		case token.REM:
+			if k, ok := ConstInt(x.Y); ok && k > 0 && unsigned(x.X.Type()) {
+				return k - 1, true
+			}
+		case token.QUO:
+			if k, ok := ConstInt(x.Y); ok && k > 0 {
+				if ub, ok2 := upperBound(x.X, depth+1); ok2 {
+					return ub / k, true
+				}
+			}
+		}
+	}
+	return 0, false
+}
+
+var (
+	loopMu    sync.Mutex
+	loopCache = map[*ssa.Function][]*Loop{}
+)
+
+func isLoopExitTest(ifi *ssa.If) bool {
+	b := ifi.Block()
+	fn := b.Parent()
+	loopMu.Lock()
+	ls, ok := loopCache[fn]
+	if !ok {
+		ls = Loops(fn)
+		loopCache[fn] = ls
+	}
+	loopMu.Unlock()
+	for _, l := range ls {
+		if !l.Body[b] {
+			continue
+		}
+		for _, s := range b.Succs {
+			if !l.Body[s] {
+				return true
+			}
+		}
+	}
+	return false
 }
